@@ -29,7 +29,7 @@ def gen_pose(rng):
     h = {"version": pc.V02, "width": 100, "height": 100, "depth": 0, "components": comps}
     F, P, N = rng.randint(1, 3), rng.randint(1, 2), pc.total_points(h)
     data = np.arange(F * P * N * 2, dtype=np.float32) + 1
-    conf = [0x3F800000 if rng.random() < 0.8 else 0 for _ in range(F * P * N)]
+    conf = [rng.choice([0x3F800000] * 9 + [0x3089705F, 0x0DA24260]) if rng.random() < 0.8 else 0 for _ in range(F * P * N)]      # 1, sometimes 1e-9 / 1e-30 (observed all the same)
     body = {"fps": {"f32": 0x41C80000}, "frames": F, "people": P, "points": N, "dims": 2, "data": pc.f32_to_bits(data), "conf": conf}
     return {"header": h, "body": body}
 
@@ -144,6 +144,16 @@ def run(ctx):
                 vt, vn = view_of(rt.body, "torch"), view_of(res.body, "numpy")
                 hd = pc.diff(got["header"], pc.canon_header(rt.header))
                 what = "header" if hd else next((k for k in ("shape", "conf", "missing", "zf") if vt.get(k) != vn.get(k)), None)
+                if not what:
+                    # the same pose object after its coordinates were re-bound (`pose.body.data = …`, as normalize_distribution, focus and cuda() do): the selection
+                    # reads the body as it is now
+                    case2 = dict(case, body=dict(case["body"], data=pc.f32_to_bits(pc.bits_to_f32(case["body"]["data"], (-1,)) * np.float32(2.0) + np.float32(1.0))))
+                    pn2 = pc.build_pose(case2)
+                    pt.body.data = pn2.torch().body.data
+                    rt2 = pt.get_components(req, points) if mode == "get" else pt.remove_components(req, points)
+                    rn2 = pn2.get_components(req, points) if mode == "get" else pn2.remove_components(req, points)
+                    v2t, v2n = view_of(rt2.body, "torch"), view_of(rn2.body, "numpy")
+                    what = next(("after re-binding body.data: " + k for k in ("shape", "conf", "missing", "zf") if v2t.get(k) != v2n.get(k)), None)
             except Exception as e:
                 what = "raises " + type(e).__name__
             ctx.count("torch body")
@@ -196,7 +206,7 @@ def helpers(ctx):
     from pose_format import Pose
     from pose_format.numpy import NumPyPoseBody
     from pose_format.pose_header import PoseHeader, PoseHeaderDimensions
-    from pose_format.utils.generic import pose_hide_legs, correct_wrists, reduce_holistic
+    from pose_format.utils.generic import pose_hide_legs, correct_wrists, correct_wrist, reduce_holistic
     from pose_format.utils.openpose import OpenPose_Components
     rng = ctx.rng
     def make(header, dims):
@@ -262,6 +272,19 @@ def helpers(ctx):
                 if len(hands) == 2 and len(bodyw) == 2:
                     model_reqs.append({"op": "body_ops", "backend": "numpy", "body": mb, "ops": [{"k": "correct_wrist", "hand": hands[0], "body": bodyw[0]}, {"k": "correct_wrist", "hand": hands[1], "body": bodyw[1]}]})
                     model_meta.append((kind, "correct_wrists", fixed))
+                # one hand at a time, its name spelled as callers spell it (the helpers normalise the case themselves): compared with the model's single correction
+                if len(hands) == 2 and len(bodyw) == 2:
+                    for spelled in rng.sample(["LEFT", "RIGHT", "left", "right", "Left", "Right"], 3):
+                        side = 0 if spelled.upper() == "LEFT" else 1
+                        one = correct_wrist(pose, spelled)
+                        od, oc = np.asarray(one.body.data.data), np.asarray(one.body.confidence)
+                        rest = [i for i in range(N) if i != bodyw[side]]
+                        seen = np.asarray(pose.body.confidence)[:, :, hands[side]] != 0
+                        if not (np.array_equal(od[:, :, rest], a[:, :, rest]) and np.array_equal(oc[:, :, rest], np.asarray(pose.body.confidence)[:, :, rest])
+                                and np.array_equal(od[:, :, bodyw[side]][seen], a[:, :, hands[side]][seen]) and np.array_equal(od[:, :, bodyw[side]][~seen], a[:, :, bodyw[side]][~seen])):
+                            ctx.violation("correct_wrist changes a point other than the named hand's body wrist, or does not give it that hand's wrist", {"format": kind, "hand": spelled}, {}, True, signature={"clause": "wrist_one"})
+                        model_reqs.append({"op": "body_ops", "backend": "numpy", "body": mb, "ops": [{"k": "correct_wrist", "hand": hands[side], "body": bodyw[side]}]})
+                        model_meta.append((kind, "correct_wrist(%s)" % spelled, one))
                 if kind == "holistic":
                     red = reduce_holistic(pose)
                     names = [(c.name, p) for c in red.header.components for p in c.points]
